@@ -506,6 +506,8 @@ def _constraint_association_gain(
         counters[i] += 1
     leftclose[:] = counters[:] - ave
     leftclose[leftclose < 0] = 0
+    # A cluster receives at most one of the points left after the division.
+    leftclose[leftclose > 1] = 1
     nover = X.shape[0] - ave * counters.shape[0]
     sumi = nover - leftclose.sum()
     if sumi != 0:
@@ -514,11 +516,11 @@ def _constraint_association_gain(
 
         def loopf(h, sumi):
             if sumi < 0 and leftclose[h] > 0:
-                sumi -= leftclose[h]
+                sumi += leftclose[h]
                 leftclose[h] = 0
             elif sumi > 0 and leftclose[h] == 0:
                 leftclose[h] = 1
-                sumi += 1
+                sumi -= 1
             return sumi
 
         it = 0
